@@ -73,3 +73,21 @@ package hedgepolicy
 //@   ensures [C16.hedge.onhedge_total] e.onHedge != nil ==> ncalls(e.onHedge) == spawned() - 1
 //@   havoc
 //@   modifies *
+
+// Builders: one hedge by default; Build keeps what was configured (an explicit WithMaxHedges(0) stays 0) in a copy of its own.
+//@ func BuilderWithDelayFunc
+//@   builder
+//@   ensures [C09.builder.default_one_hedge] result != nil && typeis(result, *config) && asref(result, *config).maxHedges == 1 && asref(result, *config).delayFunc == delayFunc && asref(result, *config).BaseAbortablePolicy != nil && asref(result, *config).onHedge == nil
+//@   modifies nothing
+//@ func (*config).WithMaxHedges
+//@   builder
+//@   requires c != nil
+//@   ensures [C09.builder.max_hedges] c.maxHedges == maxHedges && result == asiface(c)
+//@   modifies c.maxHedges
+//@ func (*config).Build
+//@   builder
+//@   requires c != nil && c.BaseAbortablePolicy != nil
+//@   let tc := asref(result, *hedgePolicy).config
+//@   ensures [C09.build.own_config+C16.hedge.build_own_listener] result != nil && typeis(result, *hedgePolicy) && tc != nil && tc != c && fresh(tc) && tc.maxHedges == c.maxHedges && tc.delayFunc == c.delayFunc && tc.onHedge == c.onHedge && tc.BaseAbortablePolicy == c.BaseAbortablePolicy
+//@   havoc
+//@   modifies *
